@@ -111,6 +111,7 @@ def coq_files():
 def coq_prepare():
     """Regenerate gen/*.v from /repo and (re)create the Makefile. Returns gen status dict."""
     st = gen.regenerate()
+    write_extract_v()
     mk = os.path.join(COQ, "Makefile")
     files = coq_files()
     stamp = os.path.join(COQ, ".files")
@@ -288,23 +289,51 @@ def proof_obligations(check, props_file, extra_targets=()):
         lock.close()
 
 
+def write_extract_v():
+    """coq/Extract/Extract.v is assembled from coq/Extract/parts/*.txt (one part per model)."""
+    parts = sorted(os.listdir(os.path.join(COQ, "Extract", "parts")))
+    reqs, names = [], []
+    for f in parts:
+        for line in open(os.path.join(COQ, "Extract", "parts", f)):
+            line = line.strip()
+            if line.startswith("require:"):
+                reqs += [x for x in line[8:].split() if x not in reqs]
+            elif line.startswith("names:"):
+                names += line[6:].split()
+    txt = ("(* ASSEMBLED from coq/Extract/parts/*.txt by lib/vlib.py: do not edit.\n"
+           "   ExtrOcamlBasic only: bool, option, unit, list, prod, sumbool, sumor are mapped to OCaml's;\n"
+           "   N, Z, positive, nat stay the Coq datatypes. *)\n"
+           "Require Extraction.\nRequire Import ExtrOcamlBasic.\n"
+           "From YV Require Import %s.\n\nCd \"extracted\".\nExtraction \"model.ml\" %s.\nCd \"..\".\n"
+           % (" ".join(reqs), " ".join(names)))
+    p = os.path.join(COQ, "Extract", "Extract.v")
+    if not os.path.exists(p) or open(p).read() != txt:
+        open(p, "w").write(txt)
+
+
 def build_model():
     """Extract the Gallina models and build the OCaml model runner; returns its path."""
     lock = coq_lock()
     try:
+        write_extract_v()
         coq_prepare()
         os.makedirs(os.path.join(COQ, "extracted"), exist_ok=True)
         ok, log = coq_make(["Extract/Extract.vo"])
         if not ok:
             raise CoqError("extraction failed:\n" + log[-3000:])
         ex = os.path.join(COQ, "extracted")
-        drv = os.path.join(VERIF, "ocaml", "driver.ml")
+        od = os.path.join(VERIF, "ocaml")
+        frags = [os.path.join(od, "prelude.ml")] + [os.path.join(od, "cmds", f) for f in sorted(os.listdir(os.path.join(od, "cmds")))
+                                                      if f.endswith(".ml")] + [os.path.join(od, "main.ml")]
+        drv = "open Model\n" + "\n".join(open(f).read() for f in frags)
+        dp = os.path.join(ex, "driver.ml")
+        if not os.path.exists(dp) or open(dp).read() != drv:
+            open(dp, "w").write(drv)
         out = os.path.join(ex, "model_runner")
-        srcs = [os.path.join(ex, "model.mli"), os.path.join(ex, "model.ml"), drv]
+        srcs = [os.path.join(ex, "model.mli"), os.path.join(ex, "model.ml"), dp]
         if os.path.exists(out) and all(os.path.getmtime(out) >= os.path.getmtime(s) for s in srcs):
             return out
-        shutil.copy2(drv, os.path.join(ex, "driver.ml"))
-        p = subprocess.run(["ocamlfind", "ocamlopt", "-O2" if False else "-inline", "50", "-w", "-a", "-o", out,
+        p = subprocess.run(["ocamlfind", "ocamlopt", "-inline", "50", "-w", "-a", "-o", out,
                             "model.mli", "model.ml", "driver.ml"], cwd=ex, stdout=subprocess.PIPE,
                            stderr=subprocess.STDOUT, text=True)
         if p.returncode != 0:
